@@ -78,6 +78,10 @@ rewrite -[_ *m invmx S *m S]mulmxA (mulVmx uS) mulmx1.
 by rewrite !mulmxA.
 Qed.
 
+Lemma serial_cov_identity :
+  X *m invmx Ci *m X^T = X *m X^T - X *m Y^T *m invmx S *m Y *m X^T.
+Proof. by rewrite serial_Ci_inv mulmxBr mulmx1 mulmxBl !mulmxA. Qed.
+
 (* mean: X Ci^-1 (Y^T R^-1 nu) = K nu *)
 Lemma serial_mean :
   X *m invmx Ci *m (Y^T *m invmx R *m nu) = X *m Y^T *m invmx S *m nu.
@@ -347,6 +351,20 @@ Proof. by apply/idP/eqP => [/Nat.eqb_eq|->] //; exact: Nat.eqb_refl. Qed.
 Lemma mx_get_col0 r (v : 'cV[F]_r) (i : 'I_r) : mx_get v i 0 = v i 0.
 Proof. by rewrite (mx_get_nat v (ltn_ord i) (ltn0Sn 0)); congr (v _ _); apply: val_inj. Qed.
 
+(* ---- size check ---- *)
+Lemma sukf_size_mismatch n m s (w : utw O) (h : M O n 1 -> M O m 1) (y : M O m 1)
+      (nz : noise O s m) prev (pred corr_prev : mixture O n) :
+  Nat.modulo m s <> 0%N ->
+  sukf_correct w h y nz prev pred corr_prev = (pred, prev).
+Proof.
+move=> ne; rewrite /sukf_correct.
+by case E: (Nat.eqb _ _) => //; move/Nat.eqb_eq: E.
+Qed.
+
+Lemma sukf_likelihood_empty n m s (nz : noise O s m) :
+  sukf_likelihood (n:=n) nz None = None.
+Proof. by []. Qed.
+
 (* ---- serial accumulation = block sums ---- *)
 Section Accum.
 Variables (s k L : nat).
@@ -490,6 +508,102 @@ by rewrite wciE mulfV // gt_eqF.
 Qed.
 End Sigma.
 
+
+(* ---- likelihood: the UVR density as getLikelihood() calls it = the direct density ---- *)
+Lemma nth_map_seq A (f : nat -> A) q i d : (i < q)%N ->
+  List.nth i (List.map f (List.seq 0 q)) d = f i.
+Proof.
+move=> iq; have iq' := elimT ssrnat.ltP iq.
+rewrite (List.nth_indep _ d (f 0%N)) ?List.map_length ?List.seq_length //.
+by rewrite List.map_nth List.seq_nth.
+Qed.
+
+Lemma mx_get00 (A : 'M[F]_1) : mx_get A 0 0 = A 0 0.
+Proof. by rewrite (mx_get_nat A (ltn0Sn 0) (ltn0Sn 0)); congr (A _ _); apply: val_inj. Qed.
+
+Lemma fold_prod (f : nat -> F) q a :
+  List.fold_left (fun acc i => acc * f i) (List.seq 0 q) a = a * \prod_(j < q) f j.
+Proof.
+elim: q => [|q IH]; first by rewrite big_ord0 mulr1.
+by rewrite List.seq_S List.fold_left_app IH /= big_ord_recr /= mulrA.
+Qed.
+
+Lemma build_blocks_mul s k L (G : nat -> 'M[F]_s) (V : 'M[F]_(L, k * s))
+      (blocks : list 'M[F]_(L, s)) (dflt : 'M[F]_(L, s)) :
+  (0 < s)%N -> (forall j, (j < k)%N -> List.nth j blocks dflt = cblk s j V *m G j) ->
+  @mbuild O L (k * s) (fun a b => @mget O L s (List.nth (Nat.div b s) blocks dflt) a (Nat.modulo b s)) =
+  V *m bdiag k G.
+Proof. by move=> s0 H; rewrite (@mul_bdiag_cols _ _ _ _ _ _ (fun j => List.nth j blocks dflt)). Qed.
+
+Section Likelihood.
+Variables (s k L : nat).
+Notation m := (k * s)%N.
+Variables (nz : noise O s m) (Rb : nat -> 'M[F]_s).
+Hypothesis s_gt0 : (0 < s)%N.
+Hypothesis Hnz : noise_blocks nz Rb.
+Hypothesis spdRb : forall j, (j < k)%N -> spd (Rb j).
+
+Let R : 'M[F]_m := bdiag k Rb.
+Let sn0 : s <> 0%N. Proof. by case: s s_gt0. Qed.
+
+Lemma lik_Rcat_block i : (i < k)%N -> mslice 0 (s * i) s s (lik_Rcat nz) = Rb i.
+Proof.
+move=> ik; apply/matrixP=> a c; rewrite mxE /=.
+have cs := elimT ssrnat.ltP (ltn_ord c).
+have D : Nat.div (s * i + c) s = i.
+  by rewrite mulnC Nat.div_add_l // Nat.div_small //; exact: addn0.
+have Mo : Nat.modulo (s * i + c) s = c.
+  by rewrite mulnC addnC; have := Nat.mod_add c i s sn0 => ->; rewrite Nat.mod_small.
+have lt : (s * i + c < k * s)%N.
+  apply: (@leq_trans (i.+1 * s)); last by rewrite leq_mul2r ik orbT.
+  by rewrite mulSn [(s * i)%N]mulnC [(s + _)%N]addnC ltn_add2l.
+rewrite /lik_Rcat /= mx_get_build // D Mo div_ks // nth_map_seq // (noise_blockE Hnz) //.
+by rewrite mx_get_ord.
+Qed.
+
+Lemma uvr_is_direct (nu : 'cV[F]_m) (Y : 'M[F]_(m, L)) :
+  uvr_log_density (O:=O) nu (mzero m 1) Y (@mtr O m L Y) (lik_Rcat nz) =
+  log_density (O:=O) nu (mzero m 1) (Y *m Y^T + R).
+Proof.
+have spdR : spd R by exact: bdiag_spd.
+have uRb j : (j < k)%N -> Rb j \in unitmx by move=> jk; apply: spd_unit; exact: spdRb.
+rewrite /uvr_log_density /log_density div_ks //.
+have -> : mcolwise_sub (O:=O) nu (mzero m 1) = nu.
+  by rewrite mcolwise_subE; apply/matrixP=> i j; rewrite !mxE subr0 ord1.
+set iRl := (if Nat.eqb m s then List.map _ _ else _).
+have iRE i : (i < k)%N -> List.nth i iRl (mzero s s) = invmx (Rb i).
+  move=> ik; rewrite /iRl; case E: (Nat.eqb m s); last by rewrite nth_map_seq // lik_Rcat_block.
+  have k1 : k = 1%N.
+    by move/Nat.eqb_eq: E => /eqP; rewrite -{2}(mul1n s) eqn_pmul2r // => /eqP.
+  have k0 : (0 < k)%N by rewrite k1.
+  have -> : i = 0%N by move: ik; rewrite k1; case: i.
+  by rewrite nth_map_seq // lik_Rcat_block.
+set VR := mbuild L m _.
+have VRE : VR = Y^T *m invmx R.
+  rewrite /R bdiag_inv //; apply: build_blocks_mul => // j jk.
+  by rewrite nth_map_seq // iRE.
+set dR := mbuild 1 m _.
+have dRE : dR = nu^T *m invmx R.
+  rewrite /R bdiag_inv //; apply: build_blocks_mul => // j jk.
+  rewrite nth_map_seq // iRE //; congr (_ *m _).
+  by apply/matrixP=> a c; rewrite !mxE /= mx_get_tr.
+set detR := (if Nat.eqb m s then spow _ _ else _).
+have detRE : detR = \det R.
+  rewrite /detR /R bdiag_det; case E: (Nat.eqb m s).
+    have k1 : k = 1%N.
+      by move/Nat.eqb_eq: E => /eqP; rewrite -{2}(mul1n s) eqn_pmul2r // => /eqP.
+    have k0 : (0 < k)%N by rewrite k1.
+    have -> : \prod_(j < k) \det (Rb j) = \det (Rb 0%N) by rewrite k1 big_ord1.
+    have -> : forall x, spow (O:=O) x k = x by move=> x; rewrite k1 /= mulr1.
+    by rewrite lik_Rcat_block.
+  rewrite fold_prod mul1r; apply: eq_bigr => j _.
+  by rewrite lik_Rcat_block.
+rewrite /gauss_log_value VRE dRE detRE /=; congr (_ * (_ + _ + _)).
+  by rewrite [Y *m Y^T + R]addrC (det_lemma _ _ (spd_unit spdR)).
+rewrite /quadform /= !mx_get00 subr0.
+by rewrite -[Y *m invmx _ *m _]mulmxA [Y *m (invmx _ *m _)]mulmxA (serial_quadform Y nu spdR).
+Qed.
+End Likelihood.
 (* ---- one component: serial correction = additive UKF correction ---- *)
 Section Comp.
 Variables (n k s : nat).
@@ -564,101 +678,125 @@ Qed.
 Lemma sukf_comp_mean : so_mean so = uo_mean uo.
 Proof. by rewrite so_meanE uo_meanE (serial_mean X Yw nu comp_R_spd). Qed.
 
+Lemma sukf_comp_likelihood : sukf_likelihood_comp nz so = ukf_likelihood_comp uo.
+Proof.
+rewrite /sukf_likelihood_comp /ukf_likelihood_comp /density uo_PyyE uo_innovE so_innovE so_YE.
+by rewrite (uvr_is_direct s_gt0 Hnz spdRb).
+Qed.
+
+(* what the update inverts is invertible (no reliance on invmx's totalisation) *)
+Lemma sukf_comp_Cinv_unit : (sukf_accum (O:=O) Yw nu nz).1 \in unitmx.
+Proof.
+rewrite (@sukf_accum_blocks _ _ _ _ _ _ Rb) //; last exact: comp_Rb_unit.
+exact: (serial_Ci_unit Yw comp_R_spd).
+Qed.
+Lemma ukf_comp_Pyy_unit : uo_Pyy uo \in unitmx.
+Proof. by rewrite uo_PyyE; exact: (serial_S_unit Yw comp_R_spd). Qed.
+
 End Comp.
 
-(* ---- likelihood: the UVR density as getLikelihood() calls it = the direct density ---- *)
-Lemma nth_map_seq A (f : nat -> A) q i d : (i < q)%N ->
-  List.nth i (List.map f (List.seq 0 q)) d = f i.
-Proof.
-move=> iq; have iq' := elimT ssrnat.ltP iq.
-rewrite (List.nth_indep _ d (f 0%N)) ?List.map_length ?List.seq_length //.
-by rewrite List.map_nth List.seq_nth.
-Qed.
 
-Lemma mx_get00 (A : 'M[F]_1) : mx_get A 0 0 = A 0 0.
-Proof. by rewrite (mx_get_nat A (ltn0Sn 0) (ltn0Sn 0)); congr (A _ _); apply: val_inj. Qed.
-
-Lemma fold_prod (f : nat -> F) q a :
-  List.fold_left (fun acc i => acc * f i) (List.seq 0 q) a = a * \prod_(j < q) f j.
-Proof.
-elim: q => [|q IH]; first by rewrite big_ord0 mulr1.
-by rewrite List.seq_S List.fold_left_app IH /= big_ord_recr /= mulrA.
-Qed.
-
-Lemma build_blocks_mul s k L (G : nat -> 'M[F]_s) (V : 'M[F]_(L, k * s))
-      (blocks : list 'M[F]_(L, s)) (dflt : 'M[F]_(L, s)) :
-  (0 < s)%N -> (forall j, (j < k)%N -> List.nth j blocks dflt = cblk s j V *m G j) ->
-  mbuild (m:=O) L (k * s) (fun a b => mget (m:=O) (List.nth (Nat.div b s) blocks dflt) a (Nat.modulo b s)) =
-  V *m bdiag k G.
-Proof. by move=> s0 H; rewrite (@mul_bdiag_cols _ _ _ _ _ _ (fun j => List.nth j blocks dflt)). Qed.
-
-Section Likelihood.
-Variables (s k L : nat).
+(* ---- reduced constructor = full constructor with equal blocks ---- *)
+Section Reduced.
+Variables (n k s : nat).
 Notation m := (k * s)%N.
-Variables (nz : noise O s m) (Rb : nat -> 'M[F]_s).
+Variables (w : utw O) (h : M O n 1 -> M O m 1) (y : M O m 1) (R0 : 'M[F]_s).
 Hypothesis s_gt0 : (0 < s)%N.
+Let nzr : noise O s m := @NoiseReduced O s m R0.
+Let nzf : noise O s m := @NoiseFull O s m (bdiag k (fun _ => R0)).
+
+Lemma sukf_comp_reduced x P : sukf_correct_comp w h y nzr x P = sukf_correct_comp w h y nzf x P.
+Proof. by rewrite /sukf_correct_comp sukf_accum_reduced. Qed.
+
+Lemma lik_Rcat_reduced : lik_Rcat nzr = lik_Rcat nzf.
+Proof.
+rewrite /lik_Rcat div_ks //.
+have -> // : List.map (noise_block nzr) (List.seq 0 k) = List.map (noise_block nzf) (List.seq 0 k).
+apply: List.map_ext_in => j /List.in_seq [_ /ssrnat.ltP jk].
+by rewrite (@noise_blockE _ _ nzf (fun _ => R0)).
+Qed.
+
+Lemma sukf_lik_reduced (o : sukf_out O n m) :
+  sukf_likelihood_comp nzr o = sukf_likelihood_comp nzf o.
+Proof. by rewrite /sukf_likelihood_comp lik_Rcat_reduced. Qed.
+
+Lemma sukf_correct_reduced prev pred corr_prev :
+  sukf_correct w h y nzr prev pred corr_prev = sukf_correct w h y nzf prev pred corr_prev.
+Proof.
+rewrite /sukf_correct; case: Nat.eqb => //.
+have -> // : List.map (fun c => sukf_correct_comp w h y nzr c.1 c.2) (mix_comps pred) =
+             List.map (fun c => sukf_correct_comp w h y nzf c.1 c.2) (mix_comps pred).
+by apply: List.map_ext => c; exact: sukf_comp_reduced.
+Qed.
+
+Lemma sukf_likelihood_reduced (mb : members O n m) :
+  sukf_likelihood nzr mb = sukf_likelihood nzf mb.
+Proof.
+case: mb => [outs|]; last by rewrite /sukf_likelihood.
+rewrite /sukf_likelihood; apply: (f_equal Some).
+exact: (List.map_ext _ _ sukf_lik_reduced).
+Qed.
+End Reduced.
+
+(* ---- the whole step on a mixture, with the library's unscented weights ---- *)
+Section Step.
+Variables (n k s : nat).
+Notation m := (k * s)%N.
+Variables (alpha beta kappa : F).
+Let w : utw O := @ut_weights O n alpha beta kappa.
+Variables (h : M O n 1 -> M O m 1) (y : M O m 1) (nz : noise O s m) (Rb : nat -> 'M[F]_s).
+Hypothesis s_gt0 : (0 < s)%N.
+Hypothesis c_gt0 : 0 < utc w.
+Hypothesis wc0_ge0 : 0 <= wc0 w.
 Hypothesis Hnz : noise_blocks nz Rb.
 Hypothesis spdRb : forall j, (j < k)%N -> spd (Rb j).
 
-Let R : 'M[F]_m := bdiag k Rb.
-Let sn0 : s <> 0%N. Proof. by case: s s_gt0. Qed.
+Lemma ut_wciE : wci w = ((1 + 1) * utc w)^-1.
+Proof. by rewrite /w /= div1r. Qed.
 
-Lemma lik_Rcat_block i : (i < k)%N -> mslice 0 (s * i) s s (lik_Rcat nz) = Rb i.
+Hypothesis sq_contract : forall d (P : 'M[F]_d), psd P -> @sq d P *m (@sq d P)^T = P.
+
+Lemma step_comp_cov x P : psd (P : 'M[F]_n) ->
+  so_cov (sukf_correct_comp w h y nz x P) = uo_cov (ukf_correct_comp w h y (bdiag k Rb : M O m m) x P).
 Proof.
-move=> ik; apply/matrixP=> a c; rewrite mxE /=.
-have cs := elimT ssrnat.ltP (ltn_ord c).
-have D : Nat.div (s * i + c) s = i.
-  by rewrite mulnC Nat.div_add_l // Nat.div_small //; exact: addn0.
-have Mo : Nat.modulo (s * i + c) s = c.
-  by rewrite mulnC addnC; have := Nat.mod_add c i s sn0 => ->; rewrite Nat.mod_small.
-have lt : (s * i + c < k * s)%N.
-  apply: (@leq_trans (i.+1 * s)); last by rewrite leq_mul2r ik orbT.
-  by rewrite mulSn [(s * i)%N]mulnC [(s + _)%N]addnC ltn_add2l.
-rewrite /lik_Rcat /= mx_get_build // D Mo div_ks // nth_map_seq // (noise_blockE Hnz) //.
-by rewrite mx_get_ord.
+by move=> pP; exact: (@sukf_comp_cov n k s w h y nz Rb x P s_gt0 c_gt0 ut_wciE wc0_ge0 (sq_contract pP) Hnz spdRb).
 Qed.
 
-Lemma uvr_is_direct (nu : 'cV[F]_m) (Y : 'M[F]_(m, L)) :
-  uvr_log_density (O:=O) nu (mzero m 1) Y (@mtr O m L Y) (lik_Rcat nz) =
-  log_density (O:=O) nu (mzero m 1) (Y *m Y^T + R).
+Lemma step_comp_mean x P :
+  so_mean (sukf_correct_comp w h y nz x P) = uo_mean (ukf_correct_comp w h y (bdiag k Rb : M O m m) x P).
+Proof. exact: (@sukf_comp_mean n k s w h y nz Rb x P s_gt0 c_gt0 ut_wciE wc0_ge0 Hnz spdRb). Qed.
+
+Lemma step_comp_likelihood x P :
+  sukf_likelihood_comp nz (sukf_correct_comp w h y nz x P) =
+  ukf_likelihood_comp (ukf_correct_comp w h y (bdiag k Rb : M O m m) x P).
+Proof. exact: (@sukf_comp_likelihood n k s w h y nz Rb x P s_gt0 c_gt0 ut_wciE wc0_ge0 Hnz spdRb). Qed.
+
+Lemma step_sigma_cov x P : psd (P : 'M[F]_n) -> Xw w x P *m (Xw w x P)^T = P.
+Proof. by move=> pP; exact: (Xw_cov x c_gt0 ut_wciE (sq_contract pP)). Qed.
+
+Lemma step_Cinv_unit x P :
+  (sukf_accum (O:=O) (so_Y (sukf_correct_comp w h y nz x P))
+                     (so_innov (sukf_correct_comp w h y nz x P)) nz).1 \in unitmx.
+Proof. exact: (@sukf_comp_Cinv_unit n k s w h y nz Rb x P s_gt0 Hnz spdRb). Qed.
+
+Lemma step_Pyy_unit x P : uo_Pyy (ukf_correct_comp w h y (bdiag k Rb : M O m m) x P) \in unitmx.
+Proof. exact: (@ukf_comp_Pyy_unit n k s w h y Rb x P c_gt0 ut_wciE wc0_ge0 spdRb). Qed.
+
+Lemma sukf_step_is_ukf (prev : members O n m) (pred corr_prev : mixture O n) :
+  (forall c, List.In c (mix_comps pred) -> psd (c.2 : 'M[F]_n)) ->
+  (sukf_correct w h y nz prev pred corr_prev).1 =
+    (ukf_correct w h y (bdiag k Rb : M O m m) pred corr_prev).1 /\
+  sukf_likelihood nz (sukf_correct w h y nz prev pred corr_prev).2 =
+    Some (List.map (@ukf_likelihood_comp O n m) (ukf_correct w h y (bdiag k Rb : M O m m) pred corr_prev).2).
 Proof.
-have spdR : spd R by exact: bdiag_spd.
-have uRb j : (j < k)%N -> Rb j \in unitmx by move=> jk; apply: spd_unit; exact: spdRb.
-rewrite /uvr_log_density /log_density div_ks //.
-have -> : mcolwise_sub (O:=O) nu (mzero m 1) = nu.
-  by rewrite mcolwise_subE; apply/matrixP=> i j; rewrite !mxE subr0 ord1.
-set iRl := (if Nat.eqb m s then List.map _ _ else _).
-have iRE i : (i < k)%N -> List.nth i iRl (mzero s s) = invmx (Rb i).
-  move=> ik; rewrite /iRl; case E: (Nat.eqb m s); last by rewrite nth_map_seq // lik_Rcat_block.
-  have k1 : k = 1%N.
-    by move/Nat.eqb_eq: E => /eqP; rewrite -{2}(mul1n s) eqn_pmul2r // => /eqP.
-  have k0 : (0 < k)%N by rewrite k1.
-  have -> : i = 0%N by move: ik; rewrite k1; case: i.
-  by rewrite nth_map_seq // lik_Rcat_block.
-set VR := mbuild L m _.
-have VRE : VR = Y^T *m invmx R.
-  rewrite /R bdiag_inv //; apply: build_blocks_mul => // j jk.
-  by rewrite nth_map_seq // iRE.
-set dR := mbuild 1 m _.
-have dRE : dR = nu^T *m invmx R.
-  rewrite /R bdiag_inv //; apply: build_blocks_mul => // j jk.
-  rewrite nth_map_seq // iRE //; congr (_ *m _).
-  by apply/matrixP=> a c; rewrite !mxE /= mx_get_tr.
-set detR := (if Nat.eqb m s then spow _ _ else _).
-have detRE : detR = \det R.
-  rewrite /detR /R bdiag_det; case E: (Nat.eqb m s).
-    have k1 : k = 1%N.
-      by move/Nat.eqb_eq: E => /eqP; rewrite -{2}(mul1n s) eqn_pmul2r // => /eqP.
-    have k0 : (0 < k)%N by rewrite k1.
-    have -> : \prod_(j < k) \det (Rb j) = \det (Rb 0%N) by rewrite k1 big_ord1.
-    have -> : forall x, spow (O:=O) x k = x by move=> x; rewrite k1 /= mulr1.
-    by rewrite lik_Rcat_block.
-  rewrite fold_prod mul1r; apply: eq_bigr => j _.
-  by rewrite lik_Rcat_block.
-rewrite /gauss_log_value VRE dRE detRE /=; congr (_ * (_ + _ + _)).
-  by rewrite [Y *m Y^T + R]addrC (det_lemma _ _ (spd_unit spdR)).
-rewrite /quadform /= !mx_get00 subr0.
-by rewrite -[Y *m invmx _ *m _]mulmxA [Y *m (invmx _ *m _)]mulmxA (serial_quadform Y nu spdR).
+move=> Hpsd; have Hsq c (Hc : List.In c (mix_comps pred)) := sq_contract (Hpsd c Hc).
+rewrite /sukf_correct mod_ks // /ukf_correct /sukf_likelihood; split.
+  congr mkMix; rewrite !List.map_map; apply: List.map_ext_in => c Hc.
+  by rewrite (@sukf_comp_cov n k s w h y nz Rb c.1 c.2 s_gt0 c_gt0 ut_wciE wc0_ge0 (Hsq _ Hc) Hnz spdRb)
+             (@sukf_comp_mean n k s w h y nz Rb c.1 c.2 s_gt0 c_gt0 ut_wciE wc0_ge0 Hnz spdRb).
+congr Some; rewrite !List.map_map; apply: List.map_ext_in => c Hc.
+by rewrite (@sukf_comp_likelihood n k s w h y nz Rb c.1 c.2 s_gt0 c_gt0 ut_wciE wc0_ge0 Hnz spdRb).
 Qed.
-End Likelihood.
+End Step.
+
 End Model.
